@@ -44,6 +44,18 @@ Theorem C07_no_dial_after_exit : forall timeout s a s' ev sid r,
 Proof. exact no_dial_after_exit. Qed.
 Print Assumptions C07_no_dial_after_exit.
 
+(* No socket for a session that already exited, second half: initConn holds connLock from the closed check to the
+   socket install (one atomic section, also when the hook / dial is slow and sweeps run meanwhile), so the socket a
+   successful dial returns lands in an entry that is open and is the table's entry for that id, before and after the
+   step: the sweeper and the final cleanup still reach it (with C07_idle_expiry / C07_no_leak_at_exit: it is closed). *)
+Theorem C07_dial_into_listed_entry : forall timeout s a s' ev sid k,
+  reachable timeout s -> step timeout s a = Some (s', ev) -> In (EDial sid (Some k)) ev ->
+  exists e en', In (sid, e) (table s) /\ table s' = table s /\
+    nth_error (heap s') e = Some en' /\ e_sid en' = sid /\ e_sock en' = Some k /\ e_closed en' = false /\
+    e_closes en' = 0%nat /\ e_pc en' = PRead.
+Proof. exact dial_into_listed_entry. Qed.
+Print Assumptions C07_dial_into_listed_entry.
+
 Theorem C07_closed_forever : forall timeout s a s' ev e en, step timeout s a = Some (s', ev) ->
   nth_error (heap s) e = Some en -> e_closed en = true ->
   exists en', nth_error (heap s') e = Some en' /\ e_closed en' = true /\ e_sock en' = e_sock en /\
